@@ -2,7 +2,7 @@
 //! the real crate through the public API.
 
 use crate::alloc;
-use crate::elems::{self, Elem, Hint, ItemObs, Obs, Plain, Probe, Stamp};
+use crate::elems::{self, Elem, Hint, ItemObs, Obs, Plain, Probe, Stamp, Token};
 use crate::sim::{self, SimAbort, SimCfg, SimOutcome};
 use orx_concurrent_iter::*;
 use serde::{Deserialize, Serialize};
@@ -43,10 +43,14 @@ pub enum Kind {
     ClonedStampSlice,
     /// `Vec<Stamp>::con_iter()`: its underlying iterator
     StampSlice,
+    /// `Vec<Token>::into_con_iter()`: zero-sized elements with a destructor (consuming)
+    VecZst,
+    /// `[Token; N]::into_con_iter()` (consuming)
+    ArrayZst,
 }
 
 impl Kind {
-    pub const ALL: [Kind; 18] = [
+    pub const ALL: [Kind; 20] = [
         Kind::Slice,
         Kind::SliceRef,
         Kind::VecRef,
@@ -65,6 +69,8 @@ impl Kind {
         Kind::PlainIter,
         Kind::ClonedStampSlice,
         Kind::StampSlice,
+        Kind::VecZst,
+        Kind::ArrayZst,
     ];
     pub fn is_iter(self) -> bool {
         matches!(
@@ -80,7 +86,17 @@ impl Kind {
         !self.is_iter()
     }
     pub fn consuming(self) -> bool {
-        matches!(self, Kind::Vec | Kind::Array | Kind::IterOwned)
+        matches!(
+            self,
+            Kind::Vec | Kind::Array | Kind::IterOwned | Kind::VecZst | Kind::ArrayZst
+        )
+    }
+    /// zero-sized elements without identity: positions come from the reported indices only
+    pub fn is_zst(self) -> bool {
+        matches!(self, Kind::VecZst | Kind::ArrayZst)
+    }
+    pub fn is_array(self) -> bool {
+        matches!(self, Kind::Array | Kind::ArrayRef | Kind::ArrayZst)
     }
     pub fn is_range(self) -> bool {
         matches!(self, Kind::Range | Kind::RangeRef)
@@ -398,6 +414,7 @@ pub struct Ctx {
     pub len: usize,
     pub consume_nth: usize,
     pub finish: u8,
+    pub seed: u64,
 }
 
 impl Ctx {
@@ -491,6 +508,10 @@ fn call<F: FnOnce() -> Res>(ctx: &Ctx, tid: usize, kind: CallKind, arg: usize, f
             }
         }
     };
+    let mut res = res;
+    if ctx.kind.is_zst() {
+        patch_zst(&mut res, ctx.seed);
+    }
     let ret = sim::call_end();
     ctx.record(Call {
         iter: CUR_ITER.with(|c| c.get()),
@@ -502,6 +523,40 @@ fn call<F: FnOnce() -> Res>(ctx: &Ctx, tid: usize, kind: CallKind, arg: usize, f
         res: res.clone(),
     });
     res
+}
+
+/// Zero-sized elements carry no identity: label them with the index the crate reported.
+fn patch_zst(res: &mut Res, seed: u64) {
+    let label = |o: &mut ItemObs, i: usize| {
+        o.raw = i as u64;
+        o.payload = elems::payload_of(seed, i as u64);
+    };
+    match res {
+        Res::Item { idx: Some(i), obs } => label(obs, *i),
+        Res::Chunk {
+            begin,
+            announced,
+            items,
+            skipped,
+            finish_last,
+            ..
+        } => {
+            for (j, o) in items.iter_mut().enumerate() {
+                label(o, begin.wrapping_add(*skipped + j));
+            }
+            if let Some(o) = finish_last {
+                label(o, begin.wrapping_add(announced.saturating_sub(1)));
+            }
+        }
+        Res::Multi { items, .. } => {
+            for (i, o) in items.iter_mut() {
+                if let Some(i) = i {
+                    label(o, *i);
+                }
+            }
+        }
+        _ => {}
+    }
 }
 
 fn consume_chunk<T: Obs, I: ExactSizeIterator<Item = T>>(
@@ -929,7 +984,12 @@ fn patch_multi(
         .find(|c| c.tid == tid && c.kind.is_composite())
     {
         match r {
-            Res::Unit => c.res = Res::Multi { items, acc },
+            Res::Unit => {
+                c.res = Res::Multi { items, acc };
+                if ctx.kind.is_zst() {
+                    patch_zst(&mut c.res, ctx.seed);
+                }
+            }
             Res::Panicked { .. } => {
                 // keep the panic, and remember what was visited before it in a sibling record
                 extra = Some(Call {
@@ -945,7 +1005,10 @@ fn patch_multi(
             _ => {}
         }
     }
-    if let Some(e) = extra {
+    if let Some(mut e) = extra {
+        if ctx.kind.is_zst() {
+            patch_zst(&mut e.res, ctx.seed);
+        }
         calls.push(e);
     }
 }
@@ -1059,6 +1122,7 @@ where
         len: cfg.len,
         consume_nth: cfg.consume_nth,
         finish: cfg.finish,
+        seed: cfg.run_seed,
     };
     sim::begin_run(cfg.sim.clone());
     let n = cfg.threads.len();
@@ -1182,7 +1246,7 @@ where
     }
 }
 
-fn make_arr<const N: usize>(mk: &impl Fn(u32) -> Elem) -> [Elem; N] {
+fn make_arr<E, const N: usize>(mk: &impl Fn(u32) -> E) -> [E; N] {
     let mut i = 0u32;
     std::array::from_fn(|_| {
         let e = mk(i);
@@ -1194,19 +1258,19 @@ fn make_arr<const N: usize>(mk: &impl Fn(u32) -> Elem) -> [Elem; N] {
 macro_rules! with_array {
     ($len:expr, $mk:expr, $body:ident, $cfg:expr) => {
         match $len {
-            0 => $body($cfg, make_arr::<0>(&$mk)),
-            1 => $body($cfg, make_arr::<1>(&$mk)),
-            2 => $body($cfg, make_arr::<2>(&$mk)),
-            3 => $body($cfg, make_arr::<3>(&$mk)),
-            4 => $body($cfg, make_arr::<4>(&$mk)),
-            5 => $body($cfg, make_arr::<5>(&$mk)),
-            6 => $body($cfg, make_arr::<6>(&$mk)),
-            8 => $body($cfg, make_arr::<8>(&$mk)),
-            12 => $body($cfg, make_arr::<12>(&$mk)),
-            16 => $body($cfg, make_arr::<16>(&$mk)),
-            24 => $body($cfg, make_arr::<24>(&$mk)),
-            33 => $body($cfg, make_arr::<33>(&$mk)),
-            64 => $body($cfg, make_arr::<64>(&$mk)),
+            0 => $body($cfg, make_arr::<_, 0>(&$mk)),
+            1 => $body($cfg, make_arr::<_, 1>(&$mk)),
+            2 => $body($cfg, make_arr::<_, 2>(&$mk)),
+            3 => $body($cfg, make_arr::<_, 3>(&$mk)),
+            4 => $body($cfg, make_arr::<_, 4>(&$mk)),
+            5 => $body($cfg, make_arr::<_, 5>(&$mk)),
+            6 => $body($cfg, make_arr::<_, 6>(&$mk)),
+            8 => $body($cfg, make_arr::<_, 8>(&$mk)),
+            12 => $body($cfg, make_arr::<_, 12>(&$mk)),
+            16 => $body($cfg, make_arr::<_, 16>(&$mk)),
+            24 => $body($cfg, make_arr::<_, 24>(&$mk)),
+            33 => $body($cfg, make_arr::<_, 33>(&$mk)),
+            64 => $body($cfg, make_arr::<_, 64>(&$mk)),
             other => panic!("unsupported array length {other}"),
         }
     };
@@ -1302,6 +1366,17 @@ pub fn execute(cfg: &RunCfg, run_no: u32) -> RunRecord {
                 drive(cfg, arr.into_con_iter())
             }
             with_array!(n, mk, body, cfg)
+        }
+        Kind::VecZst => {
+            let data: Vec<Token> = (0..n).map(|_| Token).collect();
+            drive(cfg, data.into_con_iter())
+        }
+        Kind::ArrayZst => {
+            fn body<const N: usize>(cfg: &RunCfg, arr: [Token; N]) -> DriveOut {
+                drive(cfg, arr.into_con_iter())
+            }
+            let mk_token = |_i: u32| Token;
+            with_array!(n, mk_token, body, cfg)
         }
         Kind::Range => {
             let end = cfg.range_end.unwrap_or(cfg.start.wrapping_add(n));
